@@ -26,6 +26,7 @@ func init() {
 			{Name: "resolution-cached-on-node", File: "artifact/image/layerscanning/image/layer.go", Old: "		if !isSymlink {\n			return node, nil\n		}\n", New: "		if !isSymlink {\n			slowNode.targetPath = node.virtualPath\n			return node, nil\n		}\n", Rule: "D4-nodes-immutable", Site: "resolveSymlink"},
 			{Name: "link-target-fast-path", File: "artifact/image/symlink/symlink.go", Old: "	markerDir := uuid.New().String()\n", New: "	if !strings.HasPrefix(filepath.ToSlash(target), \"../\") && !strings.HasPrefix(filepath.ToSlash(target), \"/../\") {\n		return false\n	}\n	markerDir := uuid.New().String()\n", Rule: "D3-outside-root", Site: "TargetOutsideRoot"},
 			{Name: "stat-returns-the-node", File: "artifact/image/layerscanning/image/layer.go", Old: "	return resolvedNode.Stat()\n", New: "	return resolvedNode, nil\n", Rule: "D2-resolve", Site: "FS.Stat"},
+			{Name: "relative-target-trimmed", File: "artifact/image/layerscanning/image/image.go", Old: "		targetPath = path.Clean(path.Join(path.Dir(virtualPath), targetPath))", New: "		targetPath = path.Join(path.Dir(virtualPath), strings.TrimLeft(targetPath, \"./\"))", Rule: "D5-target-normalisation", Site: "handleSymlink"},
 		},
 	})
 }
@@ -45,6 +46,9 @@ func runC17(p *Prog, r *Report) {
 	c17Outside(p, r)
 	targetOutsideRootBody(p, r, "D3-outside-root")
 	c17StatAnswers(p, r)
+	r.Rule("D5-target-normalisation", "link targets are normalised with path.Clean/Join, never by trimming character sets")
+	cutsetDiscipline(p, r, "D5-target-normalisation", imgPkg, "artifact/image/symlink", "artifact/image/unpack", "artifact/image/pathtree")
+	c17Normalise(p, r)
 	c17Immutable(p, r, "D4-nodes-immutable")
 }
 
@@ -452,4 +456,51 @@ func c17StatAnswers(p *Prog, r *Report) {
 		r.Check(ok, "D2-resolve", fmt.Sprintf("FS.Stat:answer#%d", i), p.Pos(ret.Pos()), "returns resolvedNode.Stat()", "FS.Stat does not answer with fileNode.Stat() of the resolved node: a symlink chain that ends at an entry deleted by a later layer is reported as existing")
 	}
 	r.Check(n > 0, "D2-resolve", "FS.Stat:has-success-return", p.Pos(fn.Pos()), "has a success return", "FS.Stat never returns file information")
+}
+
+// c17Normalise: a relative link target becomes path.Clean(path.Join(dir of the link, raw target)):
+// the raw Linkname goes into Join unchanged.
+func c17Normalise(p *Prog, r *Report) {
+	fn := p.Func(imgPkg, "Image.handleSymlink")
+	if fn == nil {
+		r.Undecided("D5-target-normalisation", "anchor:Image.handleSymlink", "-", "not found")
+		return
+	}
+	n := 0
+	forEachInstr(fn, func(_ *ssa.BasicBlock, _ int, in ssa.Instruction) {
+		c, ok := in.(*ssa.Call)
+		if !ok || !refOf(c.Common()).is("path", "", "Join") {
+			return
+		}
+		args := flattenVariadic(c.Call.Args)
+		if len(args) != 2 {
+			return
+		}
+		n++
+		// second element: the header's Linkname (possibly through a local), not a transformed copy
+		v := args[1]
+		// filepath.ToSlash only changes the separator spelling
+		unslash := func(x ssa.Value) ssa.Value {
+			if c2, ok := x.(*ssa.Call); ok && refOf(c2.Common()).is("path/filepath", "", "ToSlash") {
+				return c2.Call.Args[0]
+			}
+			return x
+		}
+		v = unslash(v)
+		okRaw := false
+		_, f, _, isF := fieldOf(loadAddr(v))
+		if isF && f == "Linkname" {
+			okRaw = true
+		}
+		if ph, isPhi := v.(*ssa.Phi); isPhi {
+			okRaw = true
+			for _, e := range ph.Edges {
+				if _, f2, _, ok := fieldOf(loadAddr(unslash(e))); !ok || f2 != "Linkname" {
+					okRaw = false
+				}
+			}
+		}
+		r.Check(okRaw, "D5-target-normalisation", "Image.handleSymlink:join-raw-target", p.Pos(c.Pos()), "Join(dir of the link, header.Linkname)", "the relative link target is altered before it is joined with the link's directory: targets such as ../lib/x or .hidden resolve to another file")
+	})
+	r.Instances("D5-target-normalisation", "target joins in handleSymlink", n, 1)
 }
